@@ -33,12 +33,12 @@ def check(model: Model, run: Run) -> None:
                        "this covers every sentence and every spacing choice; (2) may-raise analysis of the three from_string: only ValueError (and subclasses) can leave; "
                        "(3) every m.group(name) names a group of the folded pattern; (4) the qdstring un-escaper decodes in one simultaneous pass. "
                        "NOT decided: that the fields extracted after the regex stage (strip/split code) equal what the grammar denotes")
-    sites = {s.name: s for s in find_sites(model) if s.module == SCHEMA}
+    sites = {s.name: s for s in find_sites(model, (SCHEMA,)) if s.module == SCHEMA}
     for cname, (pname, ref_pat) in CLASSES.items():
         q = f"{SCHEMA}.{cname}.from_string"
         fi = model.func(q)
         # which pattern does from_string match against?
-        used = [s for s in find_sites(model) if s.func == q and s.api == "match" and s.name != "NOIDLEN_MATCH"]
+        used = [s for s in find_sites(model, (SCHEMA,)) if s.func == q and s.api == "match" and s.name != "NOIDLEN_MATCH"]
         if len(used) != 1:
             raise AnalysisError(f"{q}: expected exactly one description pattern match, found {len(used)}")
         s = used[0]
